@@ -191,6 +191,9 @@ def _run_nonneg(r, n, arcs, full):
         inv = {lab(x): x for x in range(n)}
         nbw = lambda u: [(lab(v), x) for v, x in adjw[inv[u]]]  # noqa: E731
         nbu = lambda u: [lab(v) for v in adju[inv[u]]]  # noqa: E731
+        if li == 1:  # string labels: every neighbour answer is a one-shot iterable (a generator), a legal Iterable value
+            nbw = lambda u: ((lab(v), x) for v, x in adjw[inv[u]])  # noqa: E731
+            nbu = lambda u: (lab(v) for v in adju[inv[u]])  # noqa: E731
         for s in range(n):
             goals = [("value", t, {t}) for t in range(n)]
             if full and li == 0:
@@ -411,9 +414,9 @@ def run_negative(r, n, arcs):
     _guarded_suite(r, _run_negative, (n, arcs), {"n": n, "arcs": [list(a) for a in arcs]}, "shortest_path")
 
 
-def run_grid(r, rows, cols, cells, hmode, costs=None):
+def run_grid(r, rows, cols, cells, hmode, costs=None, pairs=None, only_dirs=None):
     grid = [list(cells[i * cols : (i + 1) * cols]) for i in range(rows)]
-    _guarded_suite(r, _run_grid, (rows, cols, cells, hmode, costs), {"grid": grid, "costs": {str(k): v for k, v in (costs or {}).items()}}, "astar_grid")
+    _guarded_suite(r, _run_grid, (rows, cols, cells, hmode, costs, pairs, only_dirs), {"grid": grid, "costs": {str(k): v for k, v in (costs or {}).items()}}, "astar_grid")
 
 
 
@@ -555,6 +558,9 @@ def large_graphs():
     out.append(("grid6x6", g * g, ge))
     for k, (a, b, m) in ((9, (1, 3, 17)), (11, (3, 1, 19))):
         out.append((f"K{k}_directed", k, [(i, j, (a * i * j + b * (i + 2 * j)) % m + 1) for i in range(k) for j in range(k) if i != j]))
+    # dense graphs in which a label is improved many times before it is settled (queues far longer than the node count)
+    out.append(("convex_dag_40", 40, [(i, j, (j - i) ** 2) for i in range(40) for j in range(i + 1, 40)]))
+    out.append(("convex_circulant_30", 30, [(i, j, ((j - i) % 30) ** 2) for i in range(30) for j in range(30) if i != j]))
     lay = []
     for L in range(5):
         for x in range(4):
@@ -722,7 +728,7 @@ H4 = ["auto", "manhattan", "octile", "euclidean", "chebyshev"]
 H8 = ["auto", "octile", "euclidean", "chebyshev"]
 
 
-def _run_grid(r, rows, cols, cells, hmode, costs=None):
+def _run_grid(r, rows, cols, cells, hmode, costs=None, pairs=None, only_dirs=None):
     from solvor.a_star import astar_grid
     from solvor.types import Status
 
@@ -731,10 +737,16 @@ def _run_grid(r, rows, cols, cells, hmode, costs=None):
     cm = costs or {}
     wit = {"grid": grid, "costs": {str(k): v for k, v in cm.items()}}
     for directions, dirs, hs in ((4, D4, H4), (8, D8, H8)):
+        if only_dirs is not None and directions != only_dirs:
+            continue
         hlist = hs if hmode == "all" else hs[:1]
         for s in free:
+            if pairs is not None and not any(a == s for a, _ in pairs):
+                continue
             dist = grid_dists(grid, rows, cols, s, dirs, cm)
             for g in free:
+                if pairs is not None and (s, g) not in pairs:
+                    continue
                 true = dist.get(g, INF)
                 for h in hlist:
                     r["n"] += 1
@@ -789,6 +801,30 @@ def _grid_chunk(params, lo, hi):
     return r
 
 
+def _corner_chunk(params, lo, hi):
+    """corner-to-corner queries on larger grids: the two corner cells of one diagonal are free, every layout of the others"""
+    rows, cols, diag, only_dirs, base = params
+    r = new_result()
+    a, b = ((0, 0), (rows - 1, cols - 1)) if diag == 0 else ((0, cols - 1), (rows - 1, 0))
+    ia, ib = a[0] * cols + a[1], b[0] * cols + b[1]
+    pairs = ((a, b), (b, a))
+    for idx in range(lo, hi):
+        ds = digits(base + idx, 2, rows * cols - 2)
+        cells = []
+        k = 0
+        for i in range(rows * cols):
+            if i in (ia, ib):
+                cells.append(0)
+            else:
+                cells.append(ds[k])
+                k += 1
+        run_grid(r, rows, cols, cells, "auto", pairs=pairs, only_dirs=only_dirs)
+        if len(r["violations"]) >= 40 or r["counters"]["hangs"] >= 2 or too_many_hangs():
+            r["capped"] = True
+            break
+    return r
+
+
 def _terrain_chunk(params, lo, hi):
     rows, cols = params
     r = new_result()
@@ -825,6 +861,13 @@ def jobs(tier, seed):
     big = [(rr, cc) for rr in range(1, 13) for cc in range(1, 13) if 9 < rr * cc <= 12]
     for rr, cc in big:
         js.append(Job(f"grid_{rr}x{cc}_{'all' if tier == 'thorough' else 'auto'}", 2 ** (rr * cc), _grid_chunk, (rr, cc, "all" if tier == "thorough" else "auto"), describe="10-12 cells"))
+    for rr, cc in ((4, 6), (6, 4)):
+        for diag in (0, 1):
+            if tier == "thorough":
+                js.append(Job(f"grid_{rr}x{cc}_corner_to_corner_diag{diag}", 2 ** (rr * cc - 2), _corner_chunk, (rr, cc, diag, None, 0), describe="both corners of one diagonal free, every layout of the other cells; queries corner to corner in both orientations, 4 and 8 directions, default heuristic (24 cells: routes that differ by 3*sqrt(2)-4)"))
+            elif rr == 4:
+                blk = seed % 8
+                js.append(Job(f"grid_{rr}x{cc}_corner_to_corner_diag{diag}_block{blk}of8", 2 ** (rr * cc - 5), _corner_chunk, (rr, cc, diag, 8, blk * 2 ** (rr * cc - 5)), describe="both corners of one diagonal free, every layout of the other cells with the last three fixed to the block pattern (VERIF_SEED rotates it); corner-to-corner queries in both orientations, 8 directions, default heuristic"))
     for rr, cc in ((1, 4), (2, 2), (2, 3), (3, 2), (2, 4), (3, 3)):
         js.append(Job(f"terrain_{rr}x{cc}", 3 ** (rr * cc), _terrain_chunk, (rr, cc), describe="cells free(cost 1) / blocked / rough(cost 3)"))
     if tier == "thorough":
